@@ -113,7 +113,9 @@ def is_generated_fn(fn):
         if not _re.match(r"^__action\d+$", last) or "::__parse__" in fn.path:
             return "lalrpop-generated parser table code (%s)" % os.path.basename(fn.file)
     om = outer_macro(fn.ex)
-    if om and (om.startswith(TRUSTED_DERIVES) or om.startswith(TRUSTED_OUTER_MACROS)):
+    # `#[tracing::instrument]` wraps a hand-written body: the function is NOT generated; the attribute's own plumbing is
+    # recognised per site (site_generated), the user's statements inside keep an empty expansion chain
+    if om and (om.startswith(TRUSTED_DERIVES) or om.startswith(TRUSTED_OUTER_MACROS)) and not om.startswith("attribute macro:"):
         return om
     return None
 
